@@ -93,6 +93,10 @@ type World struct {
 	Proposals   []*Proposal
 	NextPropID  uint64
 	strCounter  int
+	EntPrev      map[uint64]int
+	EntOutcomes  []TallyOutcome
+	EntCompleted []*Order
+	RepeatIdx   int
 	BlockIdx    int
 	TxIdx       int
 	Trace       []string // short human-readable history (for samples / replays)
@@ -299,6 +303,25 @@ func (w *World) Run() {
 	}
 }
 
+// stepEntModel takes the enterprise model's begin-block step (completion of accepted orders, tally of raised ones)
+// right after the chain's begin-block. Where the statement leaves the outcome open the model follows what the chain
+// did; whether what the chain did is allowed is judged by the C03 oracle from EntOutcomes.
+func (w *World) stepEntModel() {
+	ctx := w.C.Ctx()
+	k := w.C.App.EnterpriseKeeper
+	w.EntPrev = map[uint64]int{}
+	for _, o := range w.Ent.Orders {
+		w.EntPrev[o.ID] = o.Status
+	}
+	w.EntOutcomes, w.EntCompleted = w.Ent.BeginBlock(w.NowUnix(), func(id uint64) int {
+		po, ok := k.GetPurchaseOrder(ctx, id)
+		if !ok {
+			return StNil
+		}
+		return int(po.Status)
+	})
+}
+
 // RunBlock executes one block; false = stop the case.
 func (w *World) RunBlock(b *Block) bool {
 	dt := b.DtMs
@@ -329,6 +352,7 @@ func (w *World) RunBlock(b *Block) bool {
 		w.classifyHalt("BeginBlock", pan)
 		return false
 	}
+	w.stepEntModel()
 	for _, h := range w.hooks {
 		if h.AfterBegin != nil {
 			h.AfterBegin(w, resp)
@@ -344,6 +368,7 @@ func (w *World) RunBlock(b *Block) bool {
 			n = 1
 		}
 		for r := 0; r < n; r++ {
+			w.RepeatIdx = r
 			w.RunTx(&b.Txs[ti])
 			if w.stop() {
 				return false
